@@ -1146,6 +1146,23 @@ func (f *Frugal) validateTypedefs() error {
 				typedef.Name, typedef.Type.Name)
 		}
 	}
+
+	// Reject typedefs that (directly or through other typedefs) alias
+	// themselves: UnderlyingType would recurse on them forever.
+	for _, typedef := range f.Typedefs {
+		seen := map[string]bool{typedef.Name: true}
+		for t := typedef.Type; t != nil && t.IncludeName() == ""; {
+			next, ok := f.typedefIndex[t.ParamName()]
+			if !ok {
+				break
+			}
+			if seen[next.Name] {
+				return fmt.Errorf("Invalid alias %s, circular typedef", typedef.Name)
+			}
+			seen[next.Name] = true
+			t = next.Type
+		}
+	}
 	return nil
 }
 
